@@ -172,6 +172,11 @@ def run(chk, facts, tier, only=None, floor=60):
         if only and only != rid:
             continue
         chk.run_rule(rid + sfx, desc, fn)
+    if only is None and not sfx:
+        import c08
+        # "... and inside vectors and maps": the big-number decoders are selected per component by fast-path flags that are re-established
+        # at every dispatch (an int key must not be read by the previous value's nat decoder)
+        chk.include(c08, "C08.R2", "C09.R4", facts)
 
 
 def run_config(chk, facts, cfg):
